@@ -40,6 +40,16 @@ def plan(tier, seed):
     cfgs.append(dict(cc="reno", cwnd=600 * 512, ssthresh=1024, depth=d - 3))
     cfgs.append(dict(cc="reno", cwnd=1024, ssthresh=1024, depth=d - 1, rtts=[1, 64]))
     cfgs.append(dict(cc="cubic", depth=d - 1, rtts=[1, 64]))
+    # fixed long histories: thousands of ACKs per second for seconds (one CUBIC epoch with thousands of ACKs; Reno likewise)
+    for cc_ in ("cubic", "reno"):
+        for (rtt, dt) in ((0.001, 0.0005), (0.01, 0.002)):
+            c = dict(cc=cc_, depth=0, flowsize=40000, longrun=dict(n=4000 if quick else 12000, rtt=rtt, dt=dt, loss_every=1500))
+            if cc_ == "reno":
+                c.update(cwnd=1024, ssthresh=4096)
+            cfgs.append(c)
+    # a flow whose finish time passes while data is still unacknowledged: retransmissions go on
+    cfgs.append(dict(cc="reno", cwnd=2048, ssthresh=1024, depth=d - 1, finish=1.25))
+    cfgs.append(dict(cc="cubic", depth=d - 1, finish=0.75, pre=["dup", "dup"]))
     # RTT samples of exactly 0 (zero-delay paths)
     cfgs.append(dict(cc="cubic", depth=d - 1, pre=["dup", "dup", "dup", ("new", 1, 0), ("new", 1, 0)], rtt0=1))
     cfgs.append(dict(cc="reno", cwnd=1024, ssthresh=1024, depth=d - 1, rtt0=1))
@@ -147,7 +157,7 @@ def execute(ch, cfg):
     if cfg.get("app"):
         flow = Flow(flow_id=0, src="s", dst="d", start_time=0, finish_time=10 ** 9, size=None, arrival_dist=lambda: 1.0, size_dist=lambda: MSS)
     else:
-        flow = Flow(flow_id=0, src="s", dst="d", start_time=0, finish_time=10 ** 9, size=400 * MSS)
+        flow = Flow(flow_id=0, src="s", dst="d", start_time=0, finish_time=cfg.get("finish", 10 ** 9), size=cfg.get("flowsize", 400) * MSS)
     cc = TCPCubic() if cfg["cc"] == "cubic" else TCPReno(mss=MSS, cwnd=cfg["cwnd"], ssthresh=cfg["ssthresh"])
     ref = Ref(cfg)
     sent = []          # (time, packet_id, size, is_retransmission)
@@ -253,8 +263,11 @@ def execute(ch, cfg):
             res.ev("C17.rto")
             if not close(sender.rto, ref.rto):
                 bad.append(("C17.rto", tag + ":rto-differs-from-srtt+4*rttvar", "history %r: rto %r, reference %r" % (hist, sender.rto, ref.rto)))
-        elif ev == "clock":
-            target = env.now + 0.5
+        elif ev == "clock" or ev[0] == "tick":
+            target = env.now + (0.5 if ev == "clock" else ev[1])
+            # keep the target clear of every timer expiry: an expiry within rounding distance of it could fall on either side
+            while any(abs(w - target) <= 1e-9 * max(1.0, target) for w in ref.timers.values()):
+                target += (0.5 if ev == "clock" else ev[1]) / 16
             # a timer may expire on the way
             expire_until(target)
             if env.now < target:
@@ -277,11 +290,15 @@ def execute(ch, cfg):
             if when > env.now:
                 env.run(until=when)
             quiesce()
+            # (with RTT samples that are not binary fractions the timer's own now + (expiry - now) may land an ulp off)
+            while env.peek() <= when + 1e-9 * max(1.0, when):
+                env.step()
+            quiesce()
             state["nt"] = True
             res.ev("C17.timeout")
             retx = [s for s in sent[n0:] if s[3]]
             due = sorted(s for s in ref.timers if ref.timers[s] == when)
-            if sorted(s[1] for s in retx) != due or any(s[0] != when for s in retx):
+            if sorted(s[1] for s in retx) != due or any(not close(s[0], when) for s in retx):
                 bad.append(("C17.timeout", tag + ":timer-expiry-did-not-retransmit-the-segment", "history %r: at t=%r retransmitted %r, timers due %r" % (hist, when, retx, due)))
                 return
             check_new_segments(n0, "before timer expiry", before=when)     # data handed over by the application meanwhile
@@ -308,6 +325,22 @@ def execute(ch, cfg):
             if bad:
                 break
         n = 0
+        if cfg.get("longrun"):
+            # one fixed long history: an ACK for up to three segments every dt seconds with RTT samples rtt (thousands of
+            # congestion-avoidance ACKs inside one CUBIC epoch), every 1500th ACK preceded by three duplicates
+            lr = cfg["longrun"]
+            for i in range(lr["n"]):
+                if bad:
+                    break
+                outstanding = (ref.next_seq - ref.last_ack) // MSS
+                if outstanding and lr.get("loss_every") and i and i % lr["loss_every"] == 0:
+                    for _ in range(3):
+                        do("dup")
+                if outstanding:
+                    do(("new", min(3, outstanding), lr["rtt"]))
+                if not bad:
+                    do(("tick", lr["dt"]))
+            hist[:] = ["long run of %d events" % len(hist)] + hist[-6:]
         while n < cfg["depth"] and not bad:
             outstanding = (ref.next_seq - ref.last_ack) // MSS
             menu = [("new", k, r) for k in (1, 2, 3) if k <= outstanding for r in (cfg["rtts"] if cfg.get("rtts") else (RTTS0 if cfg.get("rtt0") else RTTS))] + ["dup", "clock"] + (["expiry"] if ref.timers else [])
